@@ -1942,3 +1942,68 @@ func scenLeaderAfterInstall(e *engineA) error {
 	e.sleepHB(4, 8)
 	return e.finish()
 }
+
+func init() { scenarios["stale-suffix-install-crash"] = scenStaleSuffixInstallCrash }
+
+// scenStaleSuffixInstallCrash (C10): like stale-suffix-install, but the
+// uncommitted tail of the deposed leader spans several segments, the snapshot
+// it is sent ends inside that tail (with another term at that index, so the
+// whole log has to go), and the node is killed inside the log reset - after
+// the first segments were removed, with segments left that begin after the
+// snapshot index.
+func scenStaleSuffixInstallCrash(e *engineA) error {
+	e.prof = profiles["general"]
+	if err := e.boot(3); err != nil {
+		return err
+	}
+	e.cl.startInfoSampler(e.hb() / 2)
+	l := e.cl.leader()
+	if l == nil {
+		return fmt.Errorf("no leader")
+	}
+	for i := 0; i < 4; i++ {
+		e.cl.fsmOp(1, l, "update")
+	}
+	pad := 100 + 10*e.rng.Intn(6)
+	stale := 25 + e.rng.Intn(20)
+	nl, err := e.staleTail(l, stale, pad)
+	if err != nil {
+		return err
+	}
+	// the new leader commits fewer entries than the tail is long
+	n := 6 + e.rng.Intn(stale/2)
+	for i := 0; i < n; i++ {
+		if r := e.cl.fsmOpPad(1, nl, "update", pad); !r.ok {
+			break
+		}
+	}
+	e.sleepHB(4, 5)
+	e.cl.takeSnapshot(nl, 0)
+	for _, f := range e.others(l) {
+		if f != nl {
+			e.cl.takeSnapshot(f, 0)
+		}
+	}
+	e.waitFor(30, func() bool {
+		info, ok := nl.info(false)
+		return ok && info.FirstLogIndex > 6
+	})
+	pts := []string{"log.reset.each", "log.reset.each", "log.reset.each", "install.stored", "clearLog", "log.reset.created"}
+	pt := pts[e.rng.Intn(len(pts))]
+	occ := 1
+	if pt == "log.reset.each" {
+		occ = 1 + e.rng.Intn(3)
+	}
+	e.rc.emit(&ev.Rec{K: "fault", Op: "directed-crash at " + pt, Nid: l.nid, Note: fmt.Sprintf("occurrence %d", occ)})
+	e.pc.planCrash(l.dir, pt, occ)
+	e.isolate(l, false)
+	e.waitFor(60, func() bool { return l.isCrashed() })
+	e.sleepHB(1, 3)
+	if !l.isCrashed() {
+		e.pc.cancelCrash(l.dir)
+	}
+	e.cl.recoverCrashed()
+	e.startClients(2, map[string]int{"update": 3, "read": 1})
+	e.sleepHB(5, 9)
+	return e.finish()
+}
